@@ -338,6 +338,51 @@ static void addworker_scenario(int nworkers, int njobs, int stopmode) {
     }
 }
 
+// a job that ends by an exception: run() delivers it through the returned future (value-returning and void jobs alike), the worker
+// survives and serves the next job
+static void throwing_job_scenario(int nworkers, bool void_job) {
+    int64_t *s = vrt_scratch();
+    {
+        cocls::thread_pool pool((unsigned)nworkers);
+        std::unique_ptr<cocls::future<void>> fv;
+        std::unique_ptr<cocls::future<int>> fi;
+        if (void_job)
+            fv.reset(new cocls::future<void>(pool.run([g = ClosureGuard(0)] {
+                mark_ran(0);
+                throw TestError(5);
+            })));
+        else
+            fi.reset(new cocls::future<int>(pool.run([g = ClosureGuard(0)]() -> int {
+                mark_ran(0);
+                throw TestError(5);
+            })));
+        cocls::future<int> next = pool.run([g = ClosureGuard(1)] {
+            mark_ran(1);
+            return 7;
+        });
+        vrt_label("main-wait-results");
+        int kind = 0;
+        try {
+            if (void_job)
+                fv->wait();
+            else
+                (void)fi->wait();
+            kind = 1;
+        } catch (const TestError &e) {
+            kind = e.code == 5 ? 2 : 9;
+        } catch (const cocls::await_canceled_exception &) {
+            kind = 3;
+        }
+        VRT_CHECK(kind == 2, "pool/job-exception-not-delivered", "run() of a job that throws: the returned future ended in state %d (2 = the job's exception)", kind);
+        int v = next.wait();
+        VRT_CHECK(v == 7 && s[S_RAN + 1] == 1, "pool/worker-lost-after-throwing-job", "the job submitted after a throwing one did not run");
+        vrt_label("main-stop");
+        pool.stop();
+        vrt_label("main");
+        vrt_outcome("ok");
+    }
+}
+
 // a job on pool A creates, uses and destroys a helper pool B: A's worker must stay a worker of A and serve what follows
 static void two_pools_scenario(int how) {
     int64_t *s = vrt_scratch();
@@ -426,6 +471,8 @@ VRT_REGISTER(reg_pool) {
     for (int w = 1; w <= 2; w++)
         for (int n = 0; n <= 2; n++)
             for (int st : {ST_STOP, ST_SELF}) vrt::add("pool_w" + std::to_string(w) + "_addworker_j" + std::to_string(n) + "_" + stop_names[st], [=] { addworker_scenario(w, n, st); });
+    for (int w = 1; w <= 2; w++)
+        for (int v = 0; v < 2; v++) vrt::add("pool_w" + std::to_string(w) + "_live_throwing-" + (v ? "void" : "int") + "-job", [=] { throwing_job_scenario(w, v != 0); });
     for (int w = 2; w <= 3; w++)
         for (int k = 0; k < 2; k++) vrt::add("pool_w" + std::to_string(w) + "_dependent_" + (k ? "run" : "detached"), [=] { dependent_scenario(w, k); });
     for (int w = 1; w <= 3; w++)
